@@ -1,17 +1,231 @@
 /-
-C03 — property theorems (every `theorem` in this module is a proof obligation).
+C03 — property theorems (every `theorem` in this module is a proof obligation; `bin/check C03` audits each
+one's axioms). Helper lemmas live in Kap/Proofs/C03{Ring,Time,Count}.lean.
+
+Statement (properties.jsonl): for each group, a time window emitted with end time T contains exactly the
+points of that group received so far whose timestamps lie in [T-period, T) (for every()=0: in (t-period, t] of
+the triggering point), in arrival order, and nothing older or newer; windows are emitted once per 'every' step
+of data time (first one delayed to a full period with fillPeriod, edges truncated to multiples of 'every' with
+align). A count window emitted after the k-th point contains exactly the last min(k, periodCount) points,
+every everyCount points.
+
+The theorems are about the model `Kap/Model/C03.lean` (a transcription of window.go AFTER the repair
+eba8482); `bin/check C03` ties the model to the code on every run. Groups: the window node keeps one
+receiver per group (`edge.GroupedConsumer`), so the per-group statement below is the whole statement; that
+the real node routes interleaved groups to separate receivers is checked by the task cases of the harness.
 -/
-import Kap.Spec.C03
+import Kap.Proofs.C03Time
+import Kap.Proofs.C03Count
 namespace Kap.Props.C03
 open Kap.C03
 
-/-- Counterexample (the defect repaired by commit eba8482): with `insert` as it was at snapshot ef0888e the
-window of period 2 ending at 20 contains the point received at 10. Replayed on the real code by
-corpus/C03/drained-at-end-then-refilled.ops. -/
+/-! ### The defect found by this check (repaired by commit eba8482) -/
+
+/-- Counterexample on the model of the code as it was at snapshot ef0888e (`insertOld`): period 2, every 10,
+points at 0, 1, 10, 19, 20 — the window ending at 20 contains the point received at 10. Replayed on the real
+code by corpus/C03/drained-at-end-then-refilled.ops. -/
 theorem old_insert_keeps_expired_point :
     runTimeWith Buf.insertOld ⟨2, 10, false, false⟩
       [.point ⟨0, 1⟩, .point ⟨1, 2⟩, .point ⟨10, 3⟩, .point ⟨19, 4⟩, .point ⟨20, 5⟩]
     = [none, none, some ⟨10, []⟩, none, some ⟨20, [⟨10, 3⟩, ⟨19, 4⟩]⟩] := by
   decide
+
+/-- … which the property rejects: the content clause fails at step 4. -/
+theorem old_insert_violates_property :
+    let ms : List Msg := [.point ⟨0, 1⟩, .point ⟨1, 2⟩, .point ⟨10, 3⟩, .point ⟨19, 4⟩, .point ⟨20, 5⟩]
+    stepViolation ⟨2, 10, false, false⟩ 0
+      ((ms.zip (runTimeWith Buf.insertOld ⟨2, 10, false, false⟩ ms)).take 4)
+      (.point ⟨20, 5⟩) (some ⟨20, [⟨10, 3⟩, ⟨19, 4⟩]⟩) ≠ none := by
+  decide
+
+/-- The mechanism: after the ring (cap 2) drained with `stop == len == cap`, the old `insert` leaves
+`start == len`; once refilled (`start == stop == len`, a full ring) `purge` inspects the NEWEST point and
+purges nothing. The repaired `insert` wraps `start` as well. -/
+theorem old_insert_reaches_unpurgeable_state :
+    let drained : Buf := { window := [⟨0, 1⟩, ⟨1, 2⟩], cap := 2, start := 2, stop := 2, size := 0 }
+    let old := (drained.insertOld ⟨10, 3⟩).insertOld ⟨19, 4⟩
+    let new := (drained.insert ⟨10, 3⟩).insert ⟨19, 4⟩
+    (old.start, old.stop, old.size) = (2, 2, 2) ∧ (old.purge 18 true).points = [⟨10, 3⟩, ⟨19, 4⟩] ∧
+    (new.start, new.stop, new.size) = (0, 2, 2) ∧ (new.purge 18 true).points = [⟨19, 4⟩] := by
+  decide
+
+/-! ### The ring buffer refines a list — for EVERY reachable shape (start, stop, size, len, cap)
+
+`Ring b live stale` (Kap/Proofs/C03Ring.lean) is an explicit decomposition of the slice covering the linear
+shapes (live run anywhere in the slice, possibly empty, possibly with `start == stop == len`), the wrapped
+shapes (both runs non-empty, slice at capacity, including the full ring `start == stop`) and the stale slots
+outside the live region, which the Go code reads (`window[l-1]`, `window[0:stop]` of a drained ring). -/
+
+/-- The empty buffer is a ring. -/
+theorem ring_initial : Ring {} [] [] := ring_init
+
+/-- `points()` returns exactly the live points, oldest first, whatever the shape (two-segment copy). -/
+theorem points_is_live {b : Buf} {live stale : List Pt} (h : Ring b live stale) : b.points = live :=
+  ring_points h
+
+/-- **insert = append.** Every shape (full ⇒ growth ×2(size+1) from the linear or the wrapped layout; at the
+end of a slice at capacity ⇒ wrap-around, of `start` too when the ring had drained there; otherwise append or
+overwrite of a stale slot): the ring relation is preserved, the point is appended to the live list, no stale
+point becomes live again, none of the two explicit `panic`s is reached, `size` stays the number of live points. -/
+theorem insert_refines_append {b : Buf} {live stale : List Pt} (p : Pt) (h : Ring b live stale) :
+    ∃ stale', Ring (b.insert p) (live ++ [p]) stale' ∧ (∀ q ∈ stale', q ∈ stale) ∧
+      (b.insert p).points = b.points ++ [p] ∧ (b.insert p).panicked = false ∧
+      (b.insert p).size = live.length + 1 := by
+  obtain ⟨stale', hr, hsub⟩ := ring_insert nilPt p h
+  change Ring (b.insert p) (live ++ [p]) stale' at hr
+  refine ⟨stale', hr, hsub, ?_, ring_panicked hr, ?_⟩
+  · rw [ring_points hr, ring_points h]
+  · rw [ring_size hr]; simp
+
+/-- The nil slot that `make([]T, size+1, c)` creates is always overwritten: the result of `insert` does not
+depend on what a nil slot holds (so no `.Time()` is ever called on a nil interface). -/
+theorem insert_nil_irrelevant {b : Buf} {live stale : List Pt} (n1 n2 p : Pt) (h : Ring b live stale) :
+    b.insertWith n1 p = b.insertWith n2 p :=
+  insertWith_nil_irrelevant n1 n2 p h
+
+/-- **purge = dropWhile = filter.** On a ring whose live points are sorted by time and whose stale slots are
+all excluded by the bound (this is what the Go code silently relies on), `purge` — in each of its three
+branches — keeps the ring relation, keeps exactly the included live points, and leaves only excluded points
+in the stale slots (so the hypothesis is re-established for every later bound that is not smaller). -/
+theorem purge_refines_filter {b : Buf} {live stale : List Pt} (oldest : Int) (inclusive : Bool)
+    (h : Ring b live stale) (hstale : ∀ q ∈ stale, includes oldest inclusive q.t = false)
+    (hsorted : SortedT live) :
+    ∃ stale', Ring (b.purge oldest inclusive) (live.filter (fun q => includes oldest inclusive q.t)) stale' ∧
+      (∀ q ∈ stale', includes oldest inclusive q.t = false) ∧
+      (b.purge oldest inclusive).points = b.points.dropWhile (fun q => !includes oldest inclusive q.t) ∧
+      (b.purge oldest inclusive).points = b.points.filter (fun q => includes oldest inclusive q.t) := by
+  obtain ⟨stale', hr, hs⟩ := ring_purge oldest inclusive h hstale hsorted
+  refine ⟨stale', hr, hs, ?_, ?_⟩
+  · rw [ring_points hr, ring_points h, dropWhile_eq_filter _ (includes_mono oldest inclusive) live hsorted]
+  · rw [ring_points hr, ring_points h]
+
+/-- A later (not smaller) bound excludes everything an earlier bound excluded: with non-decreasing bounds the
+stale-slot hypothesis of `purge_refines_filter` is maintained from one purge to the next. -/
+theorem excluded_stays_excluded (o o' : Int) (inclusive : Bool) (t : Int) (h : o ≤ o')
+    (hx : includes o inclusive t = false) : includes o' inclusive t = false :=
+  includes_antitone o o' inclusive t h hx
+
+/-! ### Time windows: content, end time and schedule — for every configuration and every history -/
+
+/-- **Main theorem.** For every period > 0, every ≥ 0 (0, < period, = period, > period), align and fillPeriod
+flags, and EVERY sequence of points and barriers with non-decreasing timestamps (any gaps, repeated timestamps,
+silences that drain the ring at any index phase): each message emits a batch iff its time has reached the due
+time; the batch's end time is the due time (every = 0: the time of the message); it contains exactly the points
+received so far with T - period ≤ t < T (every = 0: T - period < t ≤ T), in arrival order. -/
+theorem time_window_exact (c : TCfg) (ms : List Msg) (hp : 0 < c.period) (he : 0 ≤ c.every)
+    (hmono : nondecreasing (ms.map Msg.t) = true) :
+    TimeWindowOK c (ms.zip (runTime c ms)) := by
+  rw [timeWindowOK_iff]
+  cases ms with
+  | nil => rfl
+  | cons m ms =>
+    have hinit := tinv_init c m.t hp he
+    have hm : nondecreasing (lastT m.t [] :: (m :: ms).map Msg.t) = true := by
+      simp only [lastT, List.getLast?_nil, Option.map_none, Option.getD_none, List.map_cons, nondecreasing,
+        Bool.and_eq_true, decide_eq_true_eq]
+      exact ⟨Int.le_refl _, by simpa [nondecreasing] using hmono⟩
+    exact (run_inv c m.t hp he (m :: ms) [] _ hinit hm).2
+
+/-- The executable oracle that the driver evaluates on the implementation's observed output decides exactly
+the property (so a SPECFAIL of the driver is a violation of `TimeWindowOK`, and vice versa). -/
+theorem oracle_decides_property (c : TCfg) (tr : Trace) : TimeWindowOK c tr ↔ traceViolation c tr = none :=
+  timeWindowOK_iff c tr
+
+/-- **Schedule and buffer state after any history**: `nextEmit` of the window is the spec's due time of the
+trace so far (first due time per the four align × fillPeriod cases, afterwards trigger time + every, truncated
+under align); the buffer holds exactly the received points not excluded by the last purge bound `wm`, with
+`wm + period ≤` the time of the last message; no panic site was reached; and for every ≠ 0 every message
+received so far is earlier than `nextEmit` (so nothing newer than the window end can be in a batch). -/
+theorem emit_schedule (c : TCfg) (m0 : Msg) (ms : List Msg) (hp : 0 < c.period) (he : 0 ≤ c.every)
+    (hmono : nondecreasing ((m0 :: ms).map Msg.t) = true) :
+    let w := TW.after (TW.init c m0.t) (m0 :: ms)
+    let tr := TW.traceFrom (TW.init c m0.t) (m0 :: ms)
+    w.nextEmit = due c m0.t tr ∧
+    (∃ wm, w.buf.points = (received (m0 :: ms)).filter (fun q => includes wm (c.every != 0) q.t) ∧
+           wm + c.period ≤ lastT m0.t tr) ∧
+    w.buf.panicked = false ∧
+    (c.every ≠ 0 → lastT m0.t tr < w.nextEmit) := by
+  have hinit := tinv_init c m0.t hp he
+  have hm : nondecreasing (lastT m0.t [] :: (m0 :: ms).map Msg.t) = true := by
+    simp only [lastT, List.getLast?_nil, Option.map_none, Option.getD_none, List.map_cons, nondecreasing,
+      Bool.and_eq_true, decide_eq_true_eq]
+    exact ⟨Int.le_refl _, by simpa [nondecreasing] using hmono⟩
+  obtain ⟨hinv, _⟩ := run_inv c m0.t hp he (m0 :: ms) [] _ hinit hm
+  simp only [List.nil_append] at hinv
+  obtain ⟨_, hne, ⟨wm, hring, hwm⟩, _, _, hahead⟩ := hinv
+  have hhist : histOf (TW.traceFrom (TW.init c m0.t) (m0 :: ms)) = received (m0 :: ms) := by
+    unfold histOf TW.traceFrom
+    congr 1
+    have : ∀ (w : TW) (l : List Msg), (TW.runFrom Buf.insert w l).length = l.length := by
+      intro w l; induction l generalizing w with
+      | nil => rfl
+      | cons a l ih => simp [TW.runFrom, ih]
+    rw [List.map_fst_zip (by rw [this]; exact Nat.le_refl _)]
+  refine ⟨hne, ⟨wm, ?_, hwm⟩, ringst_panicked hring, hahead⟩
+  obtain ⟨live, stale, hr, hl, _⟩ := hring
+  rw [ring_points hr, hl, hhist]
+
+/-- The four cases of the first due time, as `newWindowByTime` computes them. -/
+theorem first_due_cases (c : TCfg) (t0 : Int) (he : 0 ≤ c.every) :
+    (TW.init c t0).nextEmit = firstDue c t0 := init_nextEmit c t0 he
+
+/-- After a trigger at `t` the next window is due strictly later, and at a multiple of `every` under align
+(multiples counted from Go's zero time, as `time.Truncate` does). -/
+theorem due_after_trigger (c : TCfg) (t : Int) (he : 0 < c.every) :
+    t < dueAfter c t ∧ dueAfter c t ≤ t + c.every ∧
+    (c.align = true → (dueAfter c t + goEpochOffset) % c.every = 0) := by
+  refine ⟨dueAfter_gt c t he, ?_, ?_⟩
+  · unfold dueAfter
+    have : ¬ c.every = 0 := by omega
+    rw [if_neg this]; split
+    · exact floorMultiple_le _ _ he
+    · exact Int.le_refl _
+  · intro ha
+    unfold dueAfter
+    have : ¬ c.every = 0 := by omega
+    rw [if_neg this, if_pos ha]
+    unfold floorMultiple
+    rw [Int.sub_add_cancel]
+    exact Int.mul_emod_left _ _
+
+/-- Go's `Truncate` counts from the year 1, not from the Unix epoch: `Unix(13s).Truncate(7s) = Unix(10s)`. -/
+theorem go_truncate_is_year1_based : truncate 13000000000 7000000000 = 10000000000 := by decide
+
+/-! ### Count windows -/
+
+/-- **Count windows.** For every periodCount ≥ 1, everyCount ≥ 1, fillPeriod flag and every sequence of points:
+after the k-th point a batch is emitted iff `k = first + j·everyCount` (`first` = periodCount with fillPeriod,
+else everyCount); it holds exactly the last `min k periodCount` points in arrival order and is stamped with
+the time of the last one. -/
+theorem count_window_exact (period every : Nat) (fill : Bool) (ps : List Pt) (hP : 1 ≤ period) (hE : 1 ≤ every) :
+    countViolationFrom period every fill [] (ps.zip (runCount period every fill ps)) = none :=
+  count_run period every fill hP hE ps [] _ (cinv_init period every fill hP hE)
+
+/-- The ring of the count window returns the last `min k period` points for every index phase. -/
+theorem count_ring_points {P : Nat} {hist : List Pt} {w : CW} (hP : 1 ≤ P) (h : CRing P hist w) :
+    w.points = lastN (min hist.length P) hist := cring_points hP h
+
+/-! ### Non-vacuity: the hypotheses are met by concrete, non-trivial instances -/
+
+/-- a wrapped, partly stale ring satisfies `Ring`; purging it drops the expired point and keeps order -/
+example :
+    let b : Buf := { window := [⟨30, 3⟩, ⟨5, 0⟩, ⟨10, 1⟩, ⟨20, 2⟩], cap := 4, start := 2, stop := 1, size := 3 }
+    Ring b [⟨10, 1⟩, ⟨20, 2⟩, ⟨30, 3⟩] [⟨5, 0⟩] ∧ (b.purge 15 true).points = [⟨20, 2⟩, ⟨30, 3⟩] := by
+  refine ⟨Ring.wr [⟨10, 1⟩, ⟨20, 2⟩] [⟨5, 0⟩] [⟨30, 3⟩] rfl rfl rfl rfl rfl rfl (by simp) (by simp) rfl rfl, by decide⟩
+
+/-- a history that meets the hypotheses of `time_window_exact` and emits non-empty, overlapping windows,
+one of them after the ring drained and wrapped (the formerly defective pattern) -/
+example :
+    let c : TCfg := ⟨2, 10, false, false⟩
+    let ms : List Msg := [.point ⟨0, 1⟩, .point ⟨1, 2⟩, .point ⟨10, 3⟩, .point ⟨19, 4⟩, .point ⟨20, 5⟩]
+    0 < c.period ∧ 0 ≤ c.every ∧ nondecreasing (ms.map Msg.t) = true ∧
+    runTime c ms = [none, none, some ⟨10, []⟩, none, some ⟨20, [⟨19, 4⟩]⟩] := by
+  decide
+
+example : runTime ⟨10, 0, false, false⟩ [.point ⟨0, 1⟩, .point ⟨10, 2⟩, .barrier 20]
+    = [some ⟨0, [⟨0, 1⟩]⟩, some ⟨10, [⟨10, 2⟩]⟩, some ⟨20, []⟩] := by decide
+
+example : runCount 2 3 false [⟨1, 1⟩, ⟨2, 2⟩, ⟨3, 3⟩, ⟨4, 4⟩]
+    = [none, none, some ⟨3, [⟨2, 2⟩, ⟨3, 3⟩]⟩, none] := by decide
 
 end Kap.Props.C03
